@@ -339,12 +339,12 @@ Proof.
   destruct B as (A & B & C). spl; auto; lia.
 Qed.
 
-Lemma operator_post : forall input start s,
-  wf input s -> (start <= pos s)%nat -> post input start (pos s) (operator input start s).
+Lemma operator_post : forall ob input start s,
+  wf input s -> (start <= pos s)%nat -> post input start (pos s) (operator ob input start s).
 Proof.
-  intros input start s W Hs. unfold operator. use_take W.
+  intros ob input start s W Hs. unfold operator. use_take W.
   repeat (match goal with |- context [if list_eqb ?a ?b then _ else _] => destruct (list_eqb a b) end; try solve [fin]).
-  use_take H. use_take H5. fin.
+  use_take H. use_take H5. destruct ob; fin.
 Qed.
 
 Lemma identifier_post : forall input start s,
@@ -653,10 +653,10 @@ Ltac uis_auto :=
   | W : wf _ ?s |- context [unexpected_ident_start _ _ ?s] => use_uis W
   end.
 
-Lemma numeric_literal_post : forall fx input start s,
-  wf input s -> (start <= pos s)%nat -> post input start (pos s) (numeric_literal fx input start s).
+Lemma numeric_literal_post : forall fx sp input start s,
+  wf input s -> (start <= pos s)%nat -> post input start (pos s) (numeric_literal fx sp input start s).
 Proof.
-  intros fx input start s W Hs. unfold numeric_literal. take_auto.
+  intros fx sp input start s W Hs. unfold numeric_literal. take_auto.
   destruct (lookahead s0) as [b|] eqn:LA.
   - destruct (lookahead_some_bump_ input s0 b H LA) as (W2 & P2). bounds.
     destruct (b =? 46).
@@ -674,9 +674,9 @@ Proof.
       destruct (parse_u8 l); [fin | finp]. }
     destruct (is_ident_start b).
     { uis_auto.
-      match goal with W' : wf input ?s1 |- context [int_token l (pos s0) n ?s1] =>
-        pose proof (int_token_post input start l (pos s0) n s1 W' ltac:(lia) ltac:(lia) ltac:(lia)) as IT;
-        destruct (int_token l (pos s0) n s1) as [[oi s']| |]; cbn in *; auto end.
+      match goal with W' : wf input ?s1 |- context [int_token l ?a n ?s1] =>
+        pose proof (int_token_post input start l a n s1 W' ltac:(destruct sp; lia) ltac:(destruct sp; lia) ltac:(lia)) as IT;
+        destruct (int_token l a n s1) as [[oi s']| |]; cbn in *; auto end.
       destruct IT as (A & B' & C). spl; auto; lia. }
     pose proof (int_token_post input start l start n s0 H ltac:(lia) ltac:(lia) ltac:(lia)) as IT.
     destruct (int_token l start n s0) as [[oi s']| |]; cbn in *; auto.
@@ -704,10 +704,10 @@ Proof.
   destruct H as (A & B & C). spl; auto; lia.
 Qed.
 
-Lemma step_spec : forall fx input s,
-  wf input s -> rest s <> [] -> step_post input s (step fx input s).
+Lemma step_spec : forall fx sp ob input s,
+  wf input s -> rest s <> [] -> step_post input s (step fx sp ob input s).
 Proof.
-  intros fx input s W NE. unfold step.
+  intros fx sp ob input s W NE. unfold step.
   destruct (bump s) as [[[start ch] s1]|] eqn:B.
   2:{ unfold bump in B. destruct (rest s); [contradiction | discriminate]. }
   destruct (wf_bump _ _ _ _ _ W B) as (W1 & -> & P1 & _ & _ & Hin).
@@ -776,19 +776,19 @@ Definition all_post (input : list byte) (r : res (list item * st)) : Prop :=
   | Fuel => False
   end.
 
-Lemma lex_all_spec : forall fuel fx input s acc,
+Lemma lex_all_spec : forall fuel fx sp ob input s acc,
   wf input s -> racc_ok (pos s) acc -> (length input < fuel + pos s)%nat ->
-  all_post input (lex_all fuel fx input s acc).
+  all_post input (lex_all fuel fx sp ob input s acc).
 Proof.
-  induction fuel as [|fuel IH]; intros fx input s acc W R Hf.
+  induction fuel as [|fuel IH]; intros fx sp ob input s acc W R Hf.
   - pose proof (wf_pos_le _ _ W). lia.
   - cbn [lex_all]. pose proof (wf_pos_le _ _ W) as L.
     destruct (rest s) as [|b r] eqn:E.
     + cbn. split; auto.
       change (fwd_ok 0 (rev (ITok (TSimple KEOF) (pos s) (pos s) :: acc)) (length input)).
       apply racc_fwd. cbn. spl; auto.
-    + pose proof (step_spec fx input s W ltac:(rewrite E; discriminate)) as S.
-      destruct (step fx input s) as [[oi s']| |]; cbn in *; auto.
+    + pose proof (step_spec fx sp ob input s W ltac:(rewrite E; discriminate)) as S.
+      destruct (step fx sp ob input s) as [[oi s']| |]; cbn in *; auto.
       destruct S as (W' & P' & I').
       apply IH; auto; try lia.
       destruct oi as [[t a b'|c a b']|]; cbn in *.
@@ -797,15 +797,15 @@ Proof.
       * eapply racc_ok_mono; eauto. lia.
 Qed.
 
-Lemma lex_spec : forall fx input,
-  match lex fx input with
+Lemma lex_spec : forall fx sp ob input,
+  match lex fx sp ob input with
   | Ok (items, errs) => fwd_ok 0 items (length input) /\ Forall (err_ok input) errs
   | Panic _ => all_ascii input = false
   | Fuel => False
   end.
 Proof.
-  intros fx input. unfold lex.
-  pose proof (lex_all_spec (S (length input)) fx input (init input) [] (wf_init input) I ltac:(cbn; lia)) as H.
+  intros fx sp ob input. unfold lex.
+  pose proof (lex_all_spec (S (length input)) fx sp ob input (init input) [] (wf_init input) I ltac:(cbn; lia)) as H.
   destruct (lex_all _ _ _ _ _) as [[items s]| |]; cbn in *; auto.
   destruct H as (A & (_ & _ & B)). split; auto.
   apply Forall_rev. exact B.
@@ -813,37 +813,37 @@ Qed.
 
 (* Every loop of the tokenizer terminates: with fuel |input|+1 for the token loop and
    |remaining|+1 for the string / block-comment loops, no run ends in [Fuel]. *)
-Theorem lex_terminates : forall fx input, lex fx input <> Fuel.
+Theorem lex_terminates : forall fx sp ob input, lex fx sp ob input <> Fuel.
 Proof.
-  intros fx input H. pose proof (lex_spec fx input) as S. rewrite H in S. exact S.
+  intros fx sp ob input H. pose proof (lex_spec fx sp ob input) as S. rewrite H in S. exact S.
 Qed.
 
 (* Token spans (and the spans of fatal errors) satisfy 0 <= a1 <= b1 <= a2 <= ... <= |input|;
    every error recorded on the side has 0 <= start <= end <= |input|. *)
-Theorem lex_spans_in_bounds : forall fx input items errs,
-  lex fx input = Ok (items, errs) ->
+Theorem lex_spans_in_bounds : forall fx sp ob input items errs,
+  lex fx sp ob input = Ok (items, errs) ->
   fwd_ok 0 items (length input) /\ Forall (err_ok input) errs.
 Proof.
-  intros fx input items errs H. pose proof (lex_spec fx input) as S. rewrite H in S. exact S.
+  intros fx sp ob input items errs H. pose proof (lex_spec fx sp ob input) as S. rewrite H in S. exact S.
 Qed.
 
 (* On pure ASCII input no step panics (both variants of the tree). *)
-Theorem lex_no_panic_ascii : forall fx input,
-  all_ascii input = true -> exists r, lex fx input = Ok r.
+Theorem lex_no_panic_ascii : forall fx sp ob input,
+  all_ascii input = true -> exists r, lex fx sp ob input = Ok r.
 Proof.
-  intros fx input A. pose proof (lex_spec fx input) as S.
-  destruct (lex fx input) as [r| |]; [eauto | congruence | contradiction].
+  intros fx sp ob input A. pose proof (lex_spec fx sp ob input) as S.
+  destruct (lex fx sp ob input) as [r| |]; [eauto | congruence | contradiction].
 Qed.
 
 (* ---- valid UTF-8 input: false for the tree as found ---- *)
-Definition lex_no_panic_full_stmt (fx : bool) : Prop :=
-  forall input, utf8_valid input = true -> exists r, lex fx input = Ok r.
+Definition lex_no_panic_full_stmt (fx sp ob : bool) : Prop :=
+  forall input, utf8_valid input = true -> exists r, lex fx sp ob input = Ok r.
 
 Theorem lex_no_panic_refuted :
-  exists input, utf8_valid input = true /\ lex false input = Panic PRestoreChar.
+  exists input, utf8_valid input = true /\ lex false false false input = Panic PRestoreChar.
 Proof. exists [195; 169]. split; vm_compute; reflexivity. Qed.
 
-Corollary lex_no_panic_false_today : ~ lex_no_panic_full_stmt false.
+Corollary lex_no_panic_false_today : ~ lex_no_panic_full_stmt false false false.
 Proof.
   intro H. destruct lex_no_panic_refuted as (input & V & P).
   destruct (H input V) as (r & E). congruence.
@@ -852,25 +852,25 @@ Qed.
 (* also inside literals: a non-ASCII escape in a string (slice on a non-boundary, token.rs:423) and a
    non-ASCII character literal *)
 Theorem lex_no_panic_refuted_string :
-  exists input, utf8_valid input = true /\ lex false input = Panic PSlice.
+  exists input, utf8_valid input = true /\ lex false false false input = Panic PSlice.
 Proof. exists [34; 92; 195; 169; 34]. split; vm_compute; reflexivity. Qed.
 
 Theorem lex_no_panic_refuted_char :
-  exists input, utf8_valid input = true /\ lex false input = Panic PRestoreChar.
+  exists input, utf8_valid input = true /\ lex false false false input = Panic PRestoreChar.
 Proof. exists [39; 195; 169; 39]. split; vm_compute; reflexivity. Qed.
 
 Definition span_on_boundaries (input : list byte) (a b : nat) : Prop :=
   is_char_boundary input a = true /\ is_char_boundary input b = true.
 
-Definition lex_spans_on_boundaries_full_stmt (fx : bool) : Prop :=
-  forall input items errs, utf8_valid input = true -> lex fx input = Ok (items, errs) ->
+Definition lex_spans_on_boundaries_full_stmt (fx sp ob : bool) : Prop :=
+  forall input items errs, utf8_valid input = true -> lex fx sp ob input = Ok (items, errs) ->
     Forall (fun i => span_on_boundaries input (fst (span i)) (snd (span i))) items /\
     Forall (fun e => span_on_boundaries input (e_start e) (e_end e)) errs.
 
 (* U+00A0 followed by a blank: no panic, but UnexpectedChar is reported for the first byte only *)
 Theorem lex_spans_on_boundaries_refuted :
   exists input items errs e,
-    utf8_valid input = true /\ lex false input = Ok (items, errs) /\ In e errs /\
+    utf8_valid input = true /\ lex false false false input = Ok (items, errs) /\ In e errs /\
     is_char_boundary input (e_end e) = false.
 Proof.
   exists [194; 160; 32], [ITok (TSimple KEOF) 3 3], [mkErr 0 1 (EUnexpectedChar 160)], (mkErr 0 1 (EUnexpectedChar 160)).
@@ -887,12 +887,12 @@ Proof.
 Qed.
 
 (* restricted to ASCII input every span end-point is a character boundary *)
-Theorem lex_spans_on_boundaries_ascii : forall fx input items errs,
-  all_ascii input = true -> lex fx input = Ok (items, errs) ->
+Theorem lex_spans_on_boundaries_ascii : forall fx sp ob input items errs,
+  all_ascii input = true -> lex fx sp ob input = Ok (items, errs) ->
   Forall (fun i => span_on_boundaries input (fst (span i)) (snd (span i))) items /\
   Forall (fun e => span_on_boundaries input (e_start e) (e_end e)) errs.
 Proof.
-  intros fx input items errs A H. destruct (lex_spans_in_bounds fx input items errs H) as (F & E).
+  intros fx sp ob input items errs A H. destruct (lex_spans_in_bounds fx sp ob input items errs H) as (F & E).
   apply fwd_ok_bounds in F. destruct F as (F & _). split.
   - eapply Forall_impl; [|exact F]. intros i (X & Y). split; apply ascii_boundary; auto.
   - eapply Forall_impl; [|exact E]. intros e (X & Y). split; apply ascii_boundary; auto; lia.
@@ -945,16 +945,16 @@ Proof. intros fx s H. apply (unescape_total_gen (length s)); auto. Qed.
 Theorem unescape_total_fixed : forall s, exists r, unescape true s = Ok r.
 Proof. intros s. apply (unescape_total_gen (length s)); auto. Qed.
 
-Definition unescape_total_full_stmt (fx : bool) : Prop :=
+Definition unescape_total_full_stmt (fx sp ob un : bool) : Prop :=
   forall input items errs a b t,
-    lex fx input = Ok (items, errs) -> In (ITok (TStr false t) a b) items ->
-    exists r, unescape fx t = Ok r.
+    lex fx sp ob input = Ok (items, errs) -> In (ITok (TStr false t) a b) items ->
+    exists r, unescape un t = Ok r.
 
 (* the tokenizer recovers from a bad escape (UnexpectedEscapeCode, UnexpectedEof) and hands the
    content to the grammar, whose unescape then panics: pure ASCII witnesses *)
 Theorem unescape_total_refuted :
   exists input items errs a b t,
-    all_ascii input = true /\ lex false input = Ok (items, errs) /\
+    all_ascii input = true /\ lex false false false input = Ok (items, errs) /\
     In (ITok (TStr false t) a b) items /\ unescape false t = Panic PInvalidEscape.
 Proof.
   exists [34; 92; 113; 34], [ITok (TStr false [92; 113]) 0 4; ITok (TSimple KEOF) 4 4],
@@ -964,7 +964,7 @@ Qed.
 
 Theorem unescape_total_refuted_eof :
   exists input items errs a b t,
-    all_ascii input = true /\ lex false input = Ok (items, errs) /\
+    all_ascii input = true /\ lex false false false input = Ok (items, errs) /\
     In (ITok (TStr false t) a b) items /\ unescape false t = Panic PIndex.
 Proof.
   exists [34; 92], [ITok (TStr false [92]) 0 2; ITok (TSimple KEOF) 2 2],
